@@ -142,9 +142,19 @@ class State:
         self.broken = []       # (what, detail) : proof / correspondence breaks without input (yet)
         self.found = 0         # semantic violations with concrete input (new, not known)
 
-    def viol(self, sig, replay, what):
+        self.per_part = {}     # part -> number of new violations reported
+
+    def viol(self, sig, replay, what, part="misc", cap=4):
+        """report a property violation on a concrete input; at most `cap` new ones per part are
+        written (the rest is counted in the evidence only)"""
+        known = any(k["property"] == self.ctx.prop and k["signature"] == sig for k in self.ctx.findings.get("known", []))
+        if not known and self.per_part.get(part, 0) >= cap:
+            self.found += 1
+            self.ctx.coverage["suppressed_further_violations"] = self.ctx.coverage.get("suppressed_further_violations", 0) + 1
+            return
         if self.ctx.violation(sig, replay, what):
             self.found += 1
+            self.per_part[part] = self.per_part.get(part, 0) + 1
 
     def corr(self, equal, what, detail):
         """one correspondence instance model == implementation"""
@@ -179,7 +189,7 @@ def part_comb(st):
                 first_bad = (n, k, v)
             sig = SIG_COMB if n >= 57 else f"comb({n},{k})"
             st.viol(sig, {"function": "utils.statistics.comb", "n": n, "k": k, "polar": v, "true": str(math.comb(n, k))},
-                    f"utils.statistics.comb({n},{k}) = {v}, binomial coefficient is {math.comb(n, k)}")
+                    f"utils.statistics.comb({n},{k}) = {v}, binomial coefficient is {math.comb(n, k)}", part="comb")
     ctx.coverage["comb_first_wrong"] = list(first_bad) if first_bad else None
     ctx.coverage["comb_wrong_upto_%d" % N] = nbad
     if not getattr(ctx, "c11_have_model", True):
@@ -234,24 +244,32 @@ def part_conversions(st):
                     f"conversion of {Kk} moments returns orders {cen['keys']} / {cum['keys']}")
             continue
         true_k = cumulants_logseries(moms)
+        seen_c = seen_k = False      # per law: only the lowest failing order below the known-defect range
         for i in range(1, Kk + 1):
             pc = Fr(cen["values"][str(i)])
             tc = central_exact(law, i)
-            if pc != tc:
+            if pc != tc and not (seen_c and 2 <= i < 57):
                 if i == 1:
                     sig = SIG_CENTRAL1
                 elif i >= 57:
                     sig = SIG_CENTRAL_HI
                 else:
                     sig = f"central:{lawj}:{i}"
+                    seen_c = True
                 st.viol(sig, {"law": lawj, "order": i, "polar": fs(pc), "exact": fs(tc), "moments": tasks[idx]["moments"][:i]},
-                        f"raw_moments_to_centrals: order {i} of law {lawj}: Polar {fs(pc)}, exact E[(X-mu)^{i}] = {fs(tc)}")
+                        f"raw_moments_to_centrals: order {i} of law {lawj}: Polar {fs(pc)}, exact E[(X-mu)^{i}] = {fs(tc)}",
+                        part="centrals")
             pk = Fr(cum["values"][str(i)])
             tk = true_k[i - 1]
-            if pk != tk:
-                sig = SIG_CUMULANT_HI if i >= 58 else f"cumulant:{lawj}:{i}"
+            if pk != tk and not (seen_k and i < 58):
+                if i >= 58:
+                    sig = SIG_CUMULANT_HI
+                else:
+                    sig = f"cumulant:{lawj}:{i}"
+                    seen_k = True
                 st.viol(sig, {"law": lawj, "order": i, "polar": fs(pk), "exact": fs(tk), "moments": tasks[idx]["moments"][:i]},
-                        f"raw_moments_to_cumulants: order {i} of law {lawj}: Polar {fs(pk)}, exact cumulant {fs(tk)}")
+                        f"raw_moments_to_cumulants: order {i} of law {lawj}: Polar {fs(pk)}, exact cumulant {fs(tk)}",
+                        part="cumulants")
         if idx < 3:
             ctx.sample({"law": lawj, "K": Kk, "centrals": {k: cen["values"][k] for k in list(cen["values"])[:5]},
                         "cumulants": {k: cum["values"][k] for k in list(cum["values"])[:5]}, "agrees_with_exact": True})
@@ -266,7 +284,8 @@ def part_conversions(st):
         terms.append(f"(map (dget (raw_moments_to_cumulants {d})) {ks})")
     out, log = coq_eval(ctx, "c11_conv", terms)
     if out is None:
-        st.broken.append(("conversion model evaluation failed", log[-800:]))
+        if ctx.c11_have_model:
+            st.broken.append(("conversion model evaluation failed", log[-800:]))
     else:
         for j, (idx, law, Kk, moms, cen, cum) in enumerate(model_cases):
             pc = [Fr(cen["values"][str(i)]) for i in range(1, Kk + 1)]
@@ -337,11 +356,12 @@ def part_bounds(st):
                 if b < p:
                     st.viol(f"upper-bound-invalid:{lawj}:{fs(a)}:{j}",
                             {"law": lawj, "a": fs(a), "label": j, "bound": fs(b), "P(X>=a)": fs(p), "printed": r["printed"]},
-                            f"printed bound ({j}) = {fs(b)} < P(X >= {fs(a)}) = {fs(p)} for the non-negative law {lawj}")
+                            f"printed bound ({j}) = {fs(b)} < P(X >= {fs(a)}) = {fs(p)} for the non-negative law {lawj}",
+                            part="upper")
             if at0 < p:
                 st.viol(f"upper-bound-min-invalid:{lawj}:{fs(a)}",
                         {"law": lawj, "a": fs(a), "bound": fs(at0), "P(X>=a)": fs(p), "printed": r["printed"]},
-                        f"printed minimum bound {fs(at0)} < P(X >= {fs(a)}) = {fs(p)} for the non-negative law {lawj}")
+                        f"printed minimum bound {fs(at0)} < P(X >= {fs(a)}) = {fs(p)} for the non-negative law {lawj}", part="upper")
             want = [(j, moms[j - 1] / a ** j) for j in range(1, K + 1)]
             st.corr(items == want and at0 == min(b for _, b in want),
                     "printed upper bounds differ from [E X^j / a^j, j = 1..K] (labels in this order) / their minimum",
@@ -365,7 +385,7 @@ def part_bounds(st):
                 if val > p:
                     st.viol(f"lower-bound-invalid:{lawj}:{fs(a)}",
                             {"law": lawj, "a": fs(a), "bound": fs(val), "P(X>a)": fs(p), "printed": r["printed"]},
-                            f"printed lower bound {fs(val)} > P(X > {fs(a)}) = {fs(p)} for the law {lawj} with X - a >= 0")
+                            f"printed lower bound {fs(val)} > P(X > {fs(a)}) = {fs(p)} for the law {lawj} with X - a >= 0", part="lower")
                     break
             want = (moms[0] - a) ** 2 / (moms[1] - 2 * a * moms[0] + a * a)
             st.corr(b == want and at0 == want, "printed lower bound differs from (E X - a)^2 / (E X^2 - 2 a E X + a^2)",
@@ -375,7 +395,8 @@ def part_bounds(st):
                 model_expect.append(("lower", [b], lawj, fs(a)))
     out, log = coq_eval(ctx, "c11_bounds", model_terms)
     if out is None:
-        st.broken.append(("bound model evaluation failed", log[-800:]))
+        if ctx.c11_have_model:
+            st.broken.append(("bound model evaluation failed", log[-800:]))
     else:
         for got, (w, exp, lawj, a) in zip(out, model_expect):
             st.corr(got == exp, f"generated tail_bound_{w} differs from what the real handler prints",
@@ -433,7 +454,7 @@ def part_e2e(st):
             if bad:
                 st.viol(f"e2e:{prog}:{label}:{at_n}", {"program": prog, "goal": label + ")", "n": at_n, "polar": fs(got),
                                                        "exact": fs(truth), "printed": pr},
-                        f"Polar reports {label} | n={at_n}) = {fs(got)}; exact law gives {fs(truth)} ({mode})")
+                        f"Polar reports {label} | n={at_n}) = {fs(got)}; exact law gives {fs(truth)} ({mode})", part="e2e")
         ctx.coverage["obligations"] += 1
         ctx.coverage["discharged"] += 1
 
@@ -630,7 +651,8 @@ def run(ctx):
         "(real handlers, printed output) + end-to-end Polar runs + special polynomials n<=8 + expansion cases; non-trivial = "
         ">=2 atoms / 2<=k<=n-2 / >=3 cumulants; distinct by input. obligations = property theorems (Print Assumptions "
         "gate) + model-vs-implementation instances + validated expansion/polynomial/e2e instances" % ctx.pick(8, 60))
-    ctx.coverage["broken"] = [w for w, _ in st.broken]
+    ctx.coverage["broken"] = sorted(set(w for w, _ in st.broken))
+    ctx.coverage["new_violations_by_part"] = dict(st.per_part)
     if st.broken and st.found == 0:
         # dedupe by message
         seen = set()
